@@ -31,6 +31,17 @@ macro_rules! define_hasher {
             datalen: usize,
         }
 
+        /// Verification hook: overwrite / read the byte counter `datalen`.
+        #[cfg(cryptocorrosion_verif)]
+        impl $name {
+            pub fn verif_set_counter(&mut self, datalen: usize) {
+                self.datalen = datalen;
+            }
+            pub fn verif_get_counter(&self) -> usize {
+                self.datalen
+            }
+        }
+
         impl Debug for $name {
             fn fmt(&self, f: &mut Formatter) -> Result {
                 f.debug_struct("Jh")
